@@ -44,6 +44,11 @@ UNIT_POOL = ["meter", "m", "kg/s**2", "meter * candela", "kilogram / second ** 2
 QTY_POOL = ["5 meter", "7.12 kilogram / second ** 2", "0 m", "1e-7 s", "3 dimensionless", "2.5", "1/3 m",
             "10 km/h", "5 m*cd", "12", "0", "m", "0.1 m + 0.2 m", "3 m/m", "1_000 m", "5 kg m", "1e22 s",
             "123456789012345678901234567890 m", "1.5e-300 m", "5 %", "2 m**2", "4 delta_degC", "-3.5 eV", "degC"]
+DUR_KW_POOL = [{"years": 1, "days": 3}, {"months": 2}, {"seconds": 90}, {"days": 1, "seconds": 0.5}, {"weeks": 1},
+               {"hours": 36}, {"minutes": -5}, {"years": 1, "months": 2, "days": 3, "hours": 4}, {"microseconds": 1},
+               {"milliseconds": 1500}, {"years": 2}, {"days": 0}, {"months": 14, "minutes": 1}]
+QTY_MU_POOL = [[5, "km/h"], [2.5, "meter"], [3, "kg m"], [-1.5, "eV"], [7, "m"], [1e-7, "s"], [12, "dimensionless"],
+               [4, "delta_degC"], [25, "degC"], [0, "m"], [10, "1/s"], [3, "meter**0.5"]]
 LIT_POOLS = [["a", "b", "c"], ["single_crystal", "bi_crystal", "poly_crystal"], [1, 2, 3], ["x", 5],
              [True], ["on", "off"], ["yes"], [0, "zero"]]
 CONST_VALUES = ["x", "Dataset", 3, True, 2.5, [1, 2], {"a": 1, "b": ["c"]}, "https://w3id.org/ro/crate/1.1/context"]
@@ -260,7 +265,30 @@ def has_set(env, t):
 
 # ---- inputs (JSON-like, possibly not in canonical form) for a type
 
-def gen_input(rng, env, t, depth=0):
+def gen_pyobj(rng, t):
+    """Marker (JSON-able) for a Python object of a custom type; materialised in the worker."""
+    if t == "dur":
+        return {"$py": "dur", "kw": dict(rng.choice(DUR_KW_POOL))}
+    if t == "unit":
+        r = rng.random()
+        if r < 0.15:
+            return {"$py": "unit-reg", "s": rng.choice(UNIT_POOL)}
+        if r < 0.3:
+            return {"$py": "unit", "s": rng.choice(["m", "s", "kg", "km/h"]), "pow": rng.choice([2, -1, 3])}
+        return {"$py": "unit", "s": rng.choice(UNIT_POOL)}
+    r = rng.random()
+    if r < 0.15:
+        m, u = rng.choice(QTY_MU_POOL)
+        return {"$py": "qty-reg", "m": m, "u": u}
+    if r < 0.6:
+        m, u = rng.choice(QTY_MU_POOL)
+        return {"$py": "qty", "m": m, "u": u, "unitobj": rng.random() < 0.3}
+    return {"$py": "qty", "s": rng.choice(QTY_POOL)}
+
+
+def gen_input(rng, env, t, depth=0, py=False):
+    if py and t in ("dur", "unit", "qty") and rng.random() < 0.75:
+        return gen_pyobj(rng, t)
     if t == "int":
         return rng.choice(INT_POOL)
     if t == "float":
@@ -281,22 +309,22 @@ def gen_input(rng, env, t, depth=0):
     if k == "lit":
         return rng.choice(t[1:])
     if k == "opt":
-        return gen_input(rng, env, t[1], depth)   # presence is decided at field level
+        return gen_input(rng, env, t[1], depth, py)   # presence is decided at field level
     if k == "union":
-        return gen_input(rng, env, rng.choice(t[1:]), depth)
+        return gen_input(rng, env, rng.choice(t[1:]), depth, py)
     if k == "list":
-        return [gen_input(rng, env, t[1], depth) for _ in range(rng.choice([0, 1, 2, 3]))]
+        return [gen_input(rng, env, t[1], depth, py) for _ in range(rng.choice([0, 1, 2, 3]))]
     if k == "set":
-        xs = [gen_input(rng, env, t[1], depth) for _ in range(rng.choice([0, 1, 2, 3, 4]))]
+        xs = [gen_input(rng, env, t[1], depth, py) for _ in range(rng.choice([0, 1, 2, 3, 4]))]
         if xs and rng.random() < 0.3:
             xs.append(xs[0])
         return xs
     if k == "obj":
-        return gen_obj_input(rng, env, t[1], depth + 1)
+        return gen_obj_input(rng, env, t[1], depth + 1, py=py)
     raise ValueError(t)
 
 
-def gen_obj_input(rng, env, name, depth=0, explicit_none=False):
+def gen_obj_input(rng, env, name, depth=0, explicit_none=False, py=False):
     d = {}
     for (n, a, t, has_d, dv) in flat_fields(env, name):
         optional = has_d or (isinstance(t, list) and t[0] == "opt")
@@ -306,7 +334,7 @@ def gen_obj_input(rng, env, name, depth=0, explicit_none=False):
             d[a] = None
             continue
         key = n if (a != n and rng.random() < 0.15) else a
-        d[key] = gen_input(rng, env, t, depth)
+        d[key] = gen_input(rng, env, t, depth, py)
     return d
 
 
@@ -743,11 +771,15 @@ def _exc(e):
     return f"{type(e).__name__}: {str(e)}".replace("\n", " | ")[:300]
 
 
+NONCANON: List[Dict[str, str]] = []   # per worker process: equal after a round trip, but printed differently
+
+
 def oracle_instance(S, obj, consts, setfree, check_eq=True):
     """The property's oracle on one instance, code alone.  Returns (problems, reparsed object)."""
     probs = []
     back = None
     texts = {}
+    noncanon = NONCANON
     for form in FORMS:
         try:
             texts[form] = _ser(obj, form)
@@ -780,9 +812,12 @@ def oracle_instance(S, obj, consts, setfree, check_eq=True):
             o3 = S.parse_raw(t2)
             if not (o3 == o2 and o3 == obj):
                 probs.append({"oracle": "second-roundtrip-not-equal", "form": form})
-            elif setfree and t2 != text:
+            elif setfree and _ser(o3, form) != t2:
+                # byte identity between the second and the first round trip (set-free instances)
                 probs.append({"oracle": "second-dump-differs-setfree", "form": form,
-                              "first": str(text)[:300], "second": str(t2)[:300]})
+                              "first_roundtrip": str(t2)[:300], "second_roundtrip": str(_ser(o3, form))[:300]})
+            elif setfree and t2 != text and form == "json":
+                noncanon.append({"original": str(text)[:200], "after_one_roundtrip": str(t2)[:200]})
         except Exception as e:  # noqa: BLE001
             probs.append({"oracle": "second-roundtrip-raises", "form": form, "exc": _exc(e), "exc_type": type(e).__name__})
     if jd is not None:
@@ -791,18 +826,55 @@ def oracle_instance(S, obj, consts, setfree, check_eq=True):
                 probs.append({"oracle": "constant-missing-or-wrong", "const": k, "expected": v, "got": jd.get(k, "<absent>")})
         if consts and check_eq and not probs:
             try:
-                junk = dict(jd)
-                for k in consts:
-                    junk[k] = {"junk": k}
-                o4 = S.parse_obj(junk)
                 bare = {k: v for k, v in jd.items() if k not in consts}
-                o5 = S.parse_obj(bare)
-                j4, j5 = o4.json_dict(), o5.json_dict()
-                if not (o4 == obj and o5 == obj and all(j4.get(k) == v and j5.get(k) == v for k, v in consts.items())):
-                    probs.append({"oracle": "constant-not-ignored-on-input"})
+                others = [bare]
+                for mk in (lambda k, v: "Other" + (v if isinstance(v, str) else k), lambda k, v: {"junk": k},
+                           lambda k, v: None, lambda k, v: [v]):
+                    d2 = dict(jd)
+                    for k, v in consts.items():
+                        d2[k] = mk(k, v)
+                    others.append(d2)
+                for d2 in others:
+                    o4 = S.parse_obj(d2)
+                    j4 = o4.json_dict()
+                    if not (o4 == obj and all(j4.get(k) == v for k, v in consts.items())):
+                        probs.append({"oracle": "constant-not-ignored-on-input",
+                                      "input_constants": {k: d2.get(k, "<absent>") for k in consts},
+                                      "dumped_constants": {k: j4.get(k, "<absent>") for k in consts}})
+                        break
+                    for form in ("bytes", "yaml"):
+                        if not (S.parse_raw(_ser(o4, form)) == obj):
+                            probs.append({"oracle": "constant-not-ignored-on-input", "form": form,
+                                          "input_constants": {k: d2.get(k, "<absent>") for k in consts}})
+                            break
             except Exception as e:  # noqa: BLE001
                 probs.append({"oracle": "constant-not-ignored-on-input", "exc": _exc(e), "exc_type": type(e).__name__})
     return probs, back, jd
+
+
+def materialise(j):
+    """Replace {"$py": ...} markers by real Python objects of the custom types."""
+    if isinstance(j, list):
+        return [materialise(x) for x in j]
+    if isinstance(j, dict) and "$py" in j:
+        import pint
+        from metador_core.schema.types import Duration, PintQuantity, PintUnit
+        k = j["$py"]
+        if k == "dur":
+            return Duration(**j["kw"])
+        if k == "unit":
+            u = PintUnit(j["s"])
+            return u ** j["pow"] if "pow" in j else u
+        if k == "unit-reg":
+            return pint.application_registry.get().Unit(j["s"])
+        if k == "qty-reg":
+            return pint.application_registry.get().Quantity(j["m"], j["u"])
+        if "s" in j:
+            return PintQuantity(j["s"])
+        return PintQuantity(j["m"], PintUnit(j["u"]) if j.get("unitobj") else j["u"])
+    if isinstance(j, dict):
+        return {k: materialise(v) for k, v in j.items()}
+    return j
 
 
 def py_kwargs(env, classes, name, inp):
@@ -827,6 +899,26 @@ def py_kwargs(env, classes, name, inp):
     return kw
 
 
+_VARIANTS: Dict[Any, Any] = {}
+
+
+def variants(S):
+    """Indirections through which a schema class is used: marker subclass (multiple bases), plain subclass."""
+    if S not in _VARIANTS:
+        from metador_core.plugin.metaclass import UndefVersion
+        out = []
+        try:
+            out.append(("version-less-marker", UndefVersion._mark_class(S)))
+        except Exception:  # noqa: BLE001
+            pass
+        try:
+            out.append(("subclass", type(S)(S.__name__ + "Sub", (S,), {"__module__": __name__})))
+        except Exception:  # noqa: BLE001
+            pass
+        _VARIANTS[S] = out
+    return _VARIANTS[S]
+
+
 def eval_universe(job):
     """Worker: build the classes of a universe, evaluate inputs and mutants."""
     uni, inputs, mutants = job["uni"], job["inputs"], job["mutants"]
@@ -845,11 +937,22 @@ def eval_universe(job):
             consts = flat_consts(env, main)
             setfree = not has_set(env, mt)
             kinds = kinds_in(env, mt)
+            del NONCANON[:]
             for (inp, how) in inputs:
                 rec = {"input": inp, "how": how}
                 try:
                     if how == "ctor":
                         obj = S(**py_kwargs(env, classes, main, inp))
+                    elif how in ("pyobj", "assign"):
+                        obj = S.parse_obj(materialise(inp))
+                        if how == "assign":     # validate_assignment: re-assign every given top-level field
+                            a2n = {}
+                            for f in flat_fields(env, main):
+                                a2n[f[1]] = f[0]
+                                a2n[f[0]] = f[0]
+                            for k_, v_ in inp.items():
+                                if k_ in a2n:
+                                    setattr(obj, a2n[k_], materialise(v_))
                     else:
                         obj = S.parse_obj(inp)
                 except Exception as e:  # noqa: BLE001
@@ -871,6 +974,10 @@ def eval_universe(job):
                 rec["problems"] = probs
                 rec["json_dict"] = jd
                 try:
+                    rec["json_dict_back"] = back.json_dict() if back is not None else None
+                except Exception:  # noqa: BLE001
+                    rec["json_dict_back"] = None
+                try:
                     rec["tval"] = to_tval(env, mt, obj)
                     rec["tval_back"] = to_tval(env, mt, back) if back is not None else None
                 except Untaggable as e:
@@ -878,7 +985,28 @@ def eval_universe(job):
                 tab, bad = norm_table(kinds, [inp, jd])
                 rec["tab"] = tab
                 res["norm_bad"].extend(bad)
+                # the same input through indirections of the class: the version-less marker subclass the
+                # plugin groups hand out (bases = (UndefVersion, S)) and a plain subclass
+                if len([r_ for r_ in res["instances"] if r_.get("variants_run")]) < job.get("n_variants", 3) and not expl:
+                    rec["variants_run"] = True
+                    for via, V in variants(S):
+                        try:
+                            if how in ("pyobj", "assign"):
+                                ov = V.parse_obj(materialise(inp))
+                            else:
+                                ov = V.parse_obj(inp)
+                        except Exception as e:  # noqa: BLE001
+                            probs.append({"oracle": "handle-rejects-valid-input", "via": via, "exc": _exc(e), "exc_type": type(e).__name__})
+                            continue
+                        pv, _b, _j = oracle_instance(V, ov, consts, setfree)
+                        for q in pv:
+                            q["via"] = via
+                        probs.extend(pv)
+                        if not pv and not (ov == obj) and how != "assign":
+                            probs.append({"oracle": "handle-instance-differs", "via": via})
                 res["instances"].append(rec)
+            res["noncanon"] = list(NONCANON[:3])
+            res["noncanon_n"] = len(NONCANON)
             for m in mutants:
                 rec = {"input": m}
                 try:
@@ -1026,6 +1154,7 @@ def eval_installed(job):
             from metador_core.plugins import schemas
             S = schemas.get(name, ver)
             consts = dict(getattr(S, "__constants__", {}) or {})
+            handles = [("schemas[name]", schemas[name]), ("schemas.get(name)", schemas.get(name))]
             rng = random.Random(seed)
             fixed = job.get("inputs")
             seen = set()
@@ -1048,6 +1177,18 @@ def eval_installed(job):
                 except Exception:  # noqa: BLE001
                     hasset = True
                 probs, _back, jd = oracle_instance(S, obj, consts, not hasset)
+                for via, H in handles:
+                    try:
+                        oh = H.parse_obj(inp)
+                    except Exception as e:  # noqa: BLE001
+                        probs.append({"oracle": "handle-rejects-valid-input", "via": via, "exc": _exc(e), "exc_type": type(e).__name__})
+                        continue
+                    ph, _b, _j = oracle_instance(H, oh, consts, not hasset)
+                    for q in ph:
+                        q["via"] = via
+                    probs.extend(ph)
+                    if not ph and not (oh == obj):
+                        probs.append({"oracle": "handle-instance-differs", "via": via})
                 res["instances"].append({"input": inp, "problems": probs, "json_dict": jd})
     except vlib.CaseTimeout as e:
         res["status"] = "timeout: " + str(e)
@@ -1195,6 +1336,9 @@ def run(ctx: vlib.Ctx):
             inputs.append((gen_obj_input(rng, env, uni["main"]), how))
         for _ in range(2):
             inputs.append((unicodify(rng, gen_obj_input(rng, env, uni["main"])), "obj-unicode"))
+        if kinds_in(env, ["obj", uni["main"]]):
+            for i in range(ctx.budget(4, 8)):
+                inputs.append((gen_obj_input(rng, env, uni["main"], py=True), "assign" if i % 4 == 3 else "pyobj"))
         has_expl = any(f[3] and f[4] is not None and isinstance(f[2], list) and f[2][0] == "opt"
                        for f in flat_fields(env, uni["main"]))
         if has_expl:
@@ -1305,12 +1449,14 @@ def run(ctx: vlib.Ctx):
             rep = {"kind": "generated", "uni": uni, "input": inp, "how": first["how"], "oracle": p["oracle"], "problem": p,
                    "hits": len(hits), "installed_schemas_affected": affected_installed}
             mainf = [f[2] for f in env_of(uni)[uni["main"]]["fields"]]
-            what = (f"generated schema {uni['main']} with field types {mainf}: {p['oracle']} "
-                    f"({p.get('form', '')} {p.get('exc', '')})"[:400])
+            what = (f"generated schema {uni['main']} with field types {mainf} (instance built via {first['how']}"
+                    f"{', used through ' + p['via'] if p.get('via') else ''}): {p['oracle']} "
+                    f"({p.get('form', '')} {p.get('exc', '')} {p.get('input_constants', '')})"[:500])
         else:
             rep = {"kind": "installed", "schema": first["schema"], "version": first["version"], "input": first["input"],
                    "oracle": p["oracle"], "problem": p, "hits": len(hits), "installed_schemas_affected": affected_installed}
-            what = f"installed schema {first['schema']}: {p['oracle']} ({p.get('form', '')} {p.get('exc', '')})"[:400]
+            what = (f"installed schema {first['schema']}{' through ' + p['via'] if p.get('via') else ''}: {p['oracle']} "
+                    f"({p.get('form', '')} {p.get('exc', '')} {p.get('input_constants', '')})"[:500])
         if affected_installed:
             what += f"; installed schemas affected: {affected_installed}"
         ctx.violation(what, rep, sig_obj={"kind": p["oracle"], "exc_type": p.get("exc_type", "")})
@@ -1341,6 +1487,15 @@ def run(ctx: vlib.Ctx):
                 continue        # serialisation raised (reported by the oracle) / wire format is Latin-1
             dcases.append(["dump", rec["tab"], mty, rec["tval"]])
             dmeta.append((job, rec))
+            if (rec["how"] in ("pyobj", "assign", "ctor") and rec.get("tval_back") is not None and rec.get("json_dict_back") is not None
+                    and canon_tval(rec["tval_back"]) != canon_tval(rec["tval"])):
+                # built from Python objects whose printed form is not the parser's canonical one (e.g. int magnitude
+                # that pint re-reads as float): equal by ==, finer than the model's value equality.  The instance
+                # itself is only compared on the dump; the premises are checked on its re-parsed (canonical) form.
+                rec["noncanonical"] = True
+                rec2 = dict(rec, tval=rec["tval_back"], json_dict=rec["json_dict_back"], noncanonical=False, how="obj-back")
+                dcases.append(["dump", rec["tab"], mty, rec2["tval"]])
+                dmeta.append((job, rec2))
         for rec in res["mutants"]:
             if "untaggable" in rec:
                 disagreements.append({"kind": "untaggable-parse-result", "uid": job["uid"], "why": rec["untaggable"], "input": rec["input"]})
@@ -1353,6 +1508,7 @@ def run(ctx: vlib.Ctx):
     pres = vlib.run_model("c12", pcases) if pcases else []
     evals += len(dcases) + len(pcases)
     n_expl = 0
+    n_noncanon = 0
     for case, (job, rec), out in zip(dcases, dmeta, mres):
         wf, wt, om, dj, rep, second = out
         expl = rec["how"] == "explicit-none"
@@ -1362,6 +1518,12 @@ def run(ctx: vlib.Ctx):
         bad = []
         if wf != "T":
             bad.append("wfb false for a class the code accepted")
+        if rec.get("noncanonical"):
+            if canon_json_ty(env, mt, dj) != want and len(disagreements) < 40:
+                disagreements.append({"kind": "dump", "uid": job["uid"], "problems": ["dump differs from json_dict()"],
+                                      "input": rec["input"], "json_dict": rec["json_dict"], "model": out, "tval": rec["tval"]})
+            n_noncanon += 1
+            continue
         if wt != "T":
             bad.append("wtb false for an instance the code built")
         if canon_json_ty(env, mt, dj) != want:
@@ -1378,7 +1540,8 @@ def run(ctx: vlib.Ctx):
                 bad.append("model: parse (dump v) <> Some v")
             if second and canon_json_ty(env, mt, second[0]) != canon_json_ty(env, mt, dj):
                 bad.append("model: second dump differs")
-            if rec.get("tval_back") is not None and canon_tval(rec["tval_back"]) != canon_tval(rec["tval"]):
+            if (rec.get("tval_back") is not None and rec["how"] != "obj-back"
+                    and canon_tval(rec["tval_back"]) != canon_tval(rec["tval"])):
                 bad.append("code: re-parsed instance compares equal but holds different typed values")
         if bad and len(disagreements) < 40:
             disagreements.append({"kind": "dump", "uid": job["uid"], "problems": bad, "input": rec["input"],
@@ -1424,6 +1587,7 @@ def run(ctx: vlib.Ctx):
         "instances_built": built, "min_instances_per_main_class": min(per_class_built) if per_class_built else 0,
         "field_type_histogram": type_hist, "installed": inst_summary,
         "mutants": len(pcases), "parser_agreement": acc, "explicit_none_instances": n_expl,
+        "object_built_noncanonical_instances": n_noncanon, "build_modes": _hist(rec["how"] for _j, rec in dmeta),
         "dump_cases": len(dcases),
     }
     cov["coq_crosscheck"] = {"dump": xc, "parse": xc2}
@@ -1437,6 +1601,11 @@ def run(ctx: vlib.Ctx):
     }
     if harness_problems:
         ctx.notes.append(f"{len(harness_problems)} universes not evaluated: {harness_problems[:3]}")
+    nc = [x for res in results if res["status"] == "ok" for x in res.get("noncanon", [])]
+    if nc:
+        ctx.notes.append(f"observation: {sum(res.get('noncanon_n', 0) for res in results if res['status'] == 'ok')} set-free instances built from Python "
+                         f"objects are equal after a round trip but printed differently the first time (pint re-reads an int magnitude as float "
+                         f"for division / fractional-power units), e.g. {nc[0]}; the second and first round trips are byte-identical")
     ctor_rej = [rec["ctor_rejected"] for res in results if res["status"] == "ok" for rec in res["instances"] if rec.get("ctor_rejected")]
     if ctor_rej:
         ctx.notes.append(f"observation (not C12): the constructor rejected {len(ctor_rej)} inputs given as Python objects that the same "
